@@ -6,6 +6,9 @@ ALL = ["C%02d" % i for i in range(1, 21)]
 
 # id -> (category, technique, text, note, design_ref)
 CHECKS = {
+ "C14": ("model_checking", "deviation-bounded stateless depth-first exploration where the deviations are exactly the failing answers to the consumer's requests (all failure/success words), plus an exhaustive buffer-size grid",
+         "Every word of answers {ok, error 6, out-of-range, timeout, drop} with <=3 (quick) / <=5 (thorough) failures over 72 delay/limit/policy/start configurations, and a grid of 75+ (initial, maximum, message size) combinations crossing the 1 MiB rule change; the oracle reads the consumer->client seam, the virtual clock and the wire: retry delay min(init*1.20205^(k-1), max) with reset on success, no request beyond the attempt limit and no start failure without one, out-of-range handled per policy, fetch sizes x16 up to 1 MiB then x2 capped at the maximum, ConsumerFetchSizeTooSmall only when the maximum is too small, big message delivered.",
+         "SimCluster; where the attempt limit and the reset policy conflict (out-of-range counted as a failed attempt) either outcome is accepted", "5/C14"),
  "C02": ("model_checking", "deviation-bounded stateless depth-first exploration of the real Consumer+KafkaClient on a virtual cluster, with an incremental delivery monitor over the ground-truth log",
          "Seven log shapes (plain, compaction gaps, base offset 1000, gzip/snappy wrappers at zero and non-zero base, compacted wrapper, message larger than the buffer) x both message formats x start positions (earliest, numeric incl. mid-wrapper, latest with later appends, committed with/without stored offset) x sync/async processor, fetch buffer of 130 bytes, explored under every schedule with <=1-2 (quick) / <=2-3 (thorough) deviations: error codes on fetch/offset requests, silent broker, drop, refused connection, timers and processor completions overtaking I/O. The monitor requires every invocation to carry exactly the next log entries, never concurrently, one fetch outstanding, and the whole log delivered at quiescence.",
          "SimCluster fetch semantics (cut at max_bytes, whole wrappers); small scope; bounds in the evidence notes", "5/C02"),
